@@ -152,6 +152,10 @@ class Ctx:
             goal = z3.BoolVal(True)
         if goal is False:
             goal = z3.BoolVal(False)
+        if z3.is_and(goal) and goal.num_args() > 1:
+            for i, g in enumerate(goal.children()):
+                self.prove(f"{name}#{i}", g, node, note)
+            return
         tkey = tuple(self.trace)
         n = self.obl_seq.get((name, tkey), 0)
         self.obl_seq[(name, tkey)] = n + 1
